@@ -1890,9 +1890,34 @@ class PrepareAst:
                     default_body is None
                 ), "default branch must be last branch of match statement"
 
+                # guard of the case (`case pattern if guard:`): the case is only
+                # selected when the pattern matches AND the guard holds
+                guard_val = True
+                guard_bound: list[out.Expression] = []
+
+                if case.guard is not None:
+                    guard = cast(out.Expression, self.apply(case.guard))
+                    guard_bool = self.convert_boolean(guard.result())
+                    guard_val = guard_bool.result()
+                    guard_bound = [guard, guard_bool]
+
+                    assert isinstance(guard_val, bool) or isinstance(
+                        guard_val, _type_qualifier.TypeQualifier
+                    ), "invalid guard in case of match statement"
+
+                    if guard_val is False:
+                        # this case can never be selected
+                        continue
+
                 if isinstance(case.pattern, ast.MatchAs):
-                    default_body = cast(out.CodeBlock, self.apply(case.body))
-                    break
+                    body = cast(out.CodeBlock, self.apply(case.body))
+
+                    if guard_val is True:
+                        default_body = body
+                        break
+
+                    cases.append((out.All([guard_val], guard_bound), body))
+                    continue
                 if isinstance(case.pattern, ast.MatchValue):
                     pattern = cast(out.Expression, self.apply(case.pattern))
 
@@ -1907,6 +1932,11 @@ class PrepareAst:
                     cond = out.Compare(
                         out.Compare.Operator.EQ, subject, pattern, Temporary[bool]()
                     )
+                    if guard_val is not True:
+                        cond = out.All(
+                            [cond.result(), guard_val], [cond, *guard_bound]
+                        )
+
                     body = cast(out.CodeBlock, self.apply(case.body))
                     cases.append((cond, body))
                 else:
